@@ -12,13 +12,14 @@ statement - against the implementation alone.
 import json
 
 STREAMS = ['mkrule', 'match-pairs', 'route-histories', 'client-histories', 'client-daemon', 'rule-text', 'bus-parse',
-           'bus-histories', 'proxy-gate', 'oracle-vs-spec']
+           'bus-histories', 'proxy-gate', 'proxy-connections', 'oracle-vs-spec']
 THEOREMS = ['tables_current', 'mtypes_table_is_spec', 'match_eq_spec', 'namespace_is_component_prefix', 'route_exact',
             'route_independent_of_raising', 'invoked_exact_each_once', 'removed_never_invoked', 'ids_never_reused',
             'rule_text_roundtrip', 'client_text_means_constraints', 'bus_reads_what_the_text_means',
             'bus_scanner_follows_spec',
             'bus_rule_is_client_rule', 'proxy_gate', 'proxy_delivery', 'proxy_select', 'proxy_cancel',
-            'client_refines_router', 'client_signal_exact']
+            'proxy_cancel_per_proxy', 'client_refines_router', 'client_signal_exact',
+            'bus_rules_mirror_local_rules', 'daemon_reads_rule_as_spec', 'live_rules_keep_receiving']
 TRUSTED_BASE = [
     'Python str ==, startswith, endswith, split, slices, "%d" %, int() on ASCII digits, dict insertion order, '
     'getattr/hasattr, truthiness, try/except BaseException (mirrored by hand in Route/*.lean, validated by the streams)',
@@ -2583,6 +2584,260 @@ def stream_proxy(ctx, scenarios):
         restore_log(router, saved)
 
 
+# ------------------------------------------------------------------------------------------ several proxies, several connections
+MP_DECL = {'M': 's', 'N': ''}           # the one interface 'a.b' every proxy of this stream has
+MP_PATHS = ['/a/b', '/a/bc']
+
+
+def mp_signal(rng):
+    sn = rng.choice(['M', 'M', 'N', 'Mm'])
+    decl = MP_DECL.get(sn, 's')
+    sig = decl if rng.random() < 0.75 else rng.choice(PROXY_SIGS)
+    return SIG(path=rng.choice(MP_PATHS + MP_PATHS + ['/a']), member=sn, interface=rng.choice(['a.b', 'a.b', 'a.b', 'a.bc']),
+               signature=sig or None, body=PROXY_BODY[sig])
+
+
+def gen_multi_proxy(rng):
+    """2-3 connections to one bus, 1-3 proxies on each (of the same or of different remote objects), subscriptions /
+    cancellations / broadcast signals interleaved; at the end (usually) every subscription is cancelled, in a random
+    order, and the signal each subscription was for is broadcast.  Rule ids are numbered per connection, so proxies
+    on different connections routinely hold equal ids."""
+    n_conn = rng.choice([2, 2, 3])
+    proxies = []
+    for ci in range(n_conn):
+        for _ in range(rng.choice([1, 1, 2, 3])):
+            proxies.append([ci, rng.choice(MP_PATHS)])
+    ops, subs = [], []
+
+    def sub(pi):
+        subs.append(pi)
+        ops.append(['sub', pi, rng.choice(['M', 'M', 'N'])])
+    if rng.random() < 0.7:
+        order = list(range(len(proxies)))
+        rng.shuffle(order)
+        for pi in order:
+            if rng.random() < 0.8:
+                sub(pi)
+    for _ in range(rng.choice([4, 8, 16])):
+        q = rng.random()
+        if q < 0.30 or not subs:
+            sub(rng.randrange(len(proxies)))
+        elif q < 0.55:
+            ops.append(['cancel', rng.randrange(len(subs))])
+        else:
+            ops.append(['sig', mp_signal(rng)])
+    declared, seen = [], []
+    for pi, op in [(o[1], o) for o in ops if o[0] == 'sub']:
+        key = (proxies[pi][1], op[2])
+        if key not in seen:
+            seen.append(key)
+            decl = MP_DECL[op[2]]
+            declared.append(['sig', SIG(path=key[0], member=key[1], interface='a.b', signature=decl or None,
+                                        body=PROXY_BODY[decl])])
+    ops.extend(declared)            # the signal every subscription made so far is for
+    if rng.random() < 0.7:
+        order = list(range(len(subs)))
+        rng.shuffle(order)
+        for si in order:
+            if rng.random() < 0.85:
+                ops.append(['cancel', si])
+        ops.extend(declared)        # and once more after the cancellations
+    return {'stream': 'proxy-connections', 'conns': n_conn, 'proxies': proxies, 'ops': ops}
+
+
+def run_multi_proxy(ctx, sc):
+    """Real RemoteDBusObject proxies on several real connections, each connection behind its own SpecDaemon state
+    (one bus, the rules of every connection kept separately); a signal is broadcast to every connection whose rules
+    select it.  Oracle (implementation only), per subscription: live (notifyOnSignal's Deferred fired, its AddMatch
+    acknowledged, not cancelled): the callback is called exactly once, with the arguments, for the declared signal
+    of its object, and for nothing else; once cancelSignalNotification(id) on ITS proxy returned and every request
+    that wrote is acknowledged: never again - whatever other proxies, on this or on other connections, subscribed
+    or cancelled, with whatever ids."""
+    from txdbus import interface, message, router
+    saved = swap_log(router, LogSpy())
+    lines, impl = ['mpreset'], ['ok']
+    checks = []           # (index of the 'match' line, calls, state) - compared with the model afterwards
+    try:
+        conns = []
+        for ci in range(sc['conns']):
+            c, t = make_connection()
+            conns.append({'c': c, 't': t, 'daemon': SpecDaemon()})
+        iface = interface.DBusInterface('a.b', *[interface.Signal(k, v) for k, v in MP_DECL.items()])
+        proxies = []
+        for ci, path in sc['proxies']:
+            got_ro = []
+            conns[ci]['c'].getRemoteObject('x.y', path, [iface]).addCallback(got_ro.append)
+            if not got_ro:
+                raise HarnessReach('getRemoteObject with explicit interfaces did not produce a proxy at once')
+            drain_calls(conns[ci]['t'])
+            proxies.append({'ro': got_ro[0], 'ci': ci, 'path': path})
+
+        def answer(ci):
+            """Hand the calls connection ci wrote to its daemon, deliver the replies; -> (members, all succeeded)."""
+            K = conns[ci]
+            members, good = [], True
+            for member, body, serial, m0 in drain_calls(K['t']):
+                members.append(member)
+                err = None
+                if member in ('AddMatch', 'RemoveMatch') and getattr(m0, 'destination', None) == BUS_DRIVER \
+                        and body and len(body) == 1:
+                    err = K['daemon'].call(member, body[0])
+                    if member == 'AddMatch':
+                        K['last_text'] = body[0]
+                if err is None:
+                    K['c'].dataReceived(message.MethodReturnMessage(serial, destination=':1.7').rawMessage)
+                else:
+                    good = False
+                    ctx.stat('proxy-connections:daemon-error-reply:%s' % err.rsplit('.', 1)[-1])
+                    K['c'].dataReceived(message.ErrorMessage(err, serial, destination=':1.7', signature='s',
+                                                             body=['refused']).rawMessage)
+            return members, good
+
+        subs = []
+        for op in sc['ops']:
+            if op[0] == 'sub':
+                _, pi, name = op
+                P = proxies[pi]
+                got, rids = [], []
+                s_ = {'pi': pi, 'name': name, 'got': got, 'rid': None, 'rule': None, 'state': 'unjudged'}
+                subs.append(s_)
+                d = P['ro'].notifyOnSignal(name, (lambda g: (lambda *a: g.append(list(a))))(got))
+                d.addCallbacks(rids.append, lambda f: None)
+                conns[P['ci']]['last_text'] = None
+                members, good = answer(P['ci'])
+                if rids and isinstance(rids[0], int) and good:
+                    s_['rid'] = rids[0]
+                    s_['state'] = 'live'
+                    lines.append('mpsub %d %d' % (pi, rids[0]))
+                    impl.append('ok')
+                text = conns[P['ci']]['last_text']
+                if members == ['AddMatch'] and text is not None:
+                    s_['rule'] = dict(spec_parse_rule(text) or [])
+                    want = {'type': 'signal', 'path': P['path'], 'member': name, 'interface': 'a.b'}
+                    if s_['rule'] != want:
+                        ctx.violation('proxy-rule-differs', 'notifyOnSignal(%r) on the proxy of %s registered %r'
+                                      % (name, P['path'], text), inp=sc, observed=s_['rule'], expected=want)
+                else:
+                    ctx.stat('proxy-connections:subscription-wrote-%d-calls' % len(members))
+            elif op[0] == 'cancel':
+                s_ = subs[op[1] % len(subs)] if subs else None
+                if s_ is None or s_['rid'] is None or s_['state'] == 'unjudged':
+                    continue
+                P = proxies[s_['pi']]
+                others = [x for x in subs if x is not s_ and x['rid'] == s_['rid'] and proxies[x['pi']]['ci'] != P['ci']]
+                if others:
+                    ctx.stat('proxy-connections:cancel-of-an-id-also-held-on-another-connection')
+                try:
+                    P['ro'].cancelSignalNotification(s_['rid'])
+                except Exception as e:
+                    # the statement says nothing about a cancel that raises: the subscription is not judged further
+                    ctx.stat('proxy-connections:cancel-raised-%s' % type(e).__name__)
+                    answer(P['ci'])
+                    s_['state'] = 'unjudged'
+                    continue
+                members, good = answer(P['ci'])
+                lines.append('mpcancel %d %d' % (s_['pi'], s_['rid']))
+                impl.append('del %d' % s_['rid'] if members == ['RemoveMatch'] else
+                            ('noop' if not members else 'sent %s' % ','.join(str(x) for x in members)))
+                if s_['state'] == 'live':
+                    # cancelSignalNotification returned and every request it wrote is acknowledged: the subscription is
+                    # removed now, whether the implementation removes at once or on the acknowledgement; a daemon that
+                    # refused the removal leaves the matter open
+                    s_['state'] = 'removed' if good else 'unjudged'
+                    if members != ['RemoveMatch']:
+                        ctx.stat('proxy-connections:cancel-sent-no-removematch')     # observation, not a demand
+                else:
+                    ctx.stat('proxy-connections:cancel-again')
+            else:
+                spec = op[1]
+                mv = view(build_message(spec))
+                raw = build_message(spec, parse=False).rawMessage
+                for s_ in subs:
+                    del s_['got'][:]
+                fwd = []
+                for K in conns:
+                    f = K['daemon'].forwards(mv) is not False
+                    fwd.append(f)
+                    if f:
+                        K['c'].dataReceived(raw)
+                ctx.stat('proxy-connections:signal-forwarded-to-%d-of-%d' % (sum(fwd), len(fwd)))
+                for s_ in subs:
+                    if s_['state'] == 'unjudged':
+                        continue
+                    P = proxies[s_['pi']]
+                    calls = [list(x) for x in s_['got']]
+                    ctx.case('proxy-connections', sample=None)
+                    ctx.impl_trace()
+                    if s_['rule'] is not None:
+                        lines.append('match %s %s' % (enc_rule({'mtype': s_['rule'].get('type'), 'path': s_['rule'].get('path'),
+                                                                 'member': s_['rule'].get('member'),
+                                                                 'interface': s_['rule'].get('interface')}), enc_msg(mv)))
+                        lines.append('gate %s %s %s' % (enc_opt(MP_DECL[s_['name']]), enc_opt(spec['signature']),
+                                                        enc_body(mv['body'])))
+                        impl.append('-')
+                        impl.append('-')
+                        checks.append((len(lines) - 2, calls, s_['state']))
+                    if s_['state'] == 'removed':
+                        if calls:
+                            ctx.violation('removed-rule-invoked',
+                                          'subscription %s of proxy #%d (connection %d, %s, rule id %s): '
+                                          'cancelSignalNotification(%s) on that proxy returned and every request it wrote '
+                                          'was acknowledged, and the callback is still called'
+                                          % (s_['name'], s_['pi'], P['ci'], P['path'], s_['rid'], s_['rid']),
+                                          inp=sc, observed=calls, expected=[])
+                            return lines, impl, checks
+                        ctx.stat('proxy-connections:cancelled-silent')
+                        continue
+                    decl = MP_DECL[s_['name']]
+                    addressed = (spec['path'] == P['path'] and spec['member'] == s_['name'] and spec['interface'] == 'a.b')
+                    want = addressed and (spec['signature'] or '') == (decl or '')
+                    ctx.stat('proxy-connections:%s' % ('deliver' if want else ('wrong-signature' if addressed else 'other-signal')))
+                    if bool(calls) != want or len(calls) > 1:
+                        if not addressed:
+                            key = 'proxy-wrong-signal-delivered'
+                        elif want and not calls:
+                            key = 'proxy-matching-signal-not-delivered' if fwd[P['ci']] else \
+                                'proxy-live-subscription-not-held-by-daemon'
+                        elif len(calls) > 1:
+                            key = 'invoked-twice'
+                        else:
+                            key = 'proxy-signature-gate'
+                        ctx.violation(key, 'subscription %s(%r) of proxy #%d (connection %d, %s, rule id %s): callback %s for a '
+                                      'signal %s.%s on %s with signature %r (forwarded to that connection by a '
+                                      'specification-conforming daemon: %s)'
+                                      % (s_['name'], decl, s_['pi'], P['ci'], P['path'], s_['rid'],
+                                         'called %d times' % len(calls) if calls else 'not called', spec['interface'],
+                                         spec['member'], spec['path'], spec['signature'], fwd[P['ci']]),
+                                      inp=sc, observed=calls, expected='called once with the body' if want else 'not called')
+                        return lines, impl, checks
+                    elif calls and calls[0] != list(spec['body'] or []):
+                        ctx.violation('proxy-arguments-differ', 'the callback did not receive the signal arguments', inp=sc,
+                                      observed=calls[0], expected=spec['body'])
+                        return lines, impl, checks
+        return lines, impl, checks
+    finally:
+        restore_log(router, saved)
+
+
+def stream_multi_proxy(ctx, sc):
+    lines, impl, checks = run_multi_proxy(ctx, sc)
+    ctx.case('proxy-connections', sample=sc)
+    out = ctx.model(lines)
+    if out is None:
+        return
+    for i, ln in enumerate(lines):
+        if ln.split(' ')[0] in ('mpreset', 'mpsub', 'mpcancel') and out[i] != impl[i]:
+            ctx.disagree('proxy-connections', sc, {'line': ln, 'out': out[i]}, impl[i], detail='cancelSignalNotification')
+            return
+    for li, calls, state in checks:
+        model = 'none' if state == 'removed' else (out[li + 1] if out[li] == 'call' else 'none')
+        got = 'none' if not calls else 'call ' + enc_body([['str', a, None] if isinstance(a, str) else ['other', None, None]
+                                                           for a in calls[0]])
+        if model != got or len(calls) > 1:
+            ctx.disagree('proxy-connections', sc, {'line': lines[li] + ' / ' + lines[li + 1], 'out': model}, got)
+            return
+
+
 def probe_internal_reentrancy(ctx):
     """F31's routeMessage variant: a callback that removes a rule through the *internal* router object while a
     message is being routed.  Not reachable through DBusClientConnection.addMatch/delMatch (they act after the
@@ -2647,6 +2902,8 @@ def run_corpus_case(ctx, case):
         run_bus_history(ctx, case['ops'])
     elif s == 'proxy-gate':
         stream_proxy(ctx, [case])
+    elif s == 'proxy-connections':
+        stream_multi_proxy(ctx, case)
 
 
 SKIPPED = set()
@@ -2766,6 +3023,11 @@ def run(ctx):
 
     scs = [gen_proxy_scenario(rng) for _ in range(ctx.scale(quick=120, thorough=1200))]
     guarded(ctx, ['proxy-gate'], lambda: stream_proxy(ctx, scs))
+
+    for _ in range(ctx.scale(quick=100, thorough=1000)):
+        mp_ = gen_multi_proxy(rng)
+        if not guarded(ctx, ['proxy-connections'], lambda: stream_multi_proxy(ctx, mp_)):
+            break
 
     guarded(ctx, [], lambda: probe_internal_reentrancy(ctx))
     guarded(ctx, [], lambda: probe_apostrophe(ctx))
